@@ -58,10 +58,11 @@ Theorem C10_restart_request_shape :
 Proof. exact restart_request_shape. Qed.
 Print Assumptions C10_restart_request_shape.
 
-(* messages queued while the requester was away are delivered once, on its next request *)
+(* messages queued while the requester was away are delivered once, on its next request for data
+   (a graphsync request that carries a cancel is terminated instead, see fix #6) *)
 Theorem C10_pending_extensions_delivered_once :
   forall s p rid m c a,
-    g_isreq m = true ->
+    g_isreq m = true -> is_cancel m = false ->
     tlookup (p, ts_self s, g_tid m) (ts_chans s) = Some c -> tc_rcancel c = true -> ha_ret a <> HErr ->
     let k := (p, ts_self s, g_tid m) in
     let '(s', o) := tstep s (GIncomingRequest p rid (Some m)) [a] in
